@@ -433,6 +433,53 @@ func runC11(c *Ctx) error {
 			}
 		}
 	}
+	// foreign attribute shapes THROUGH THE WIRE: a transform is encoded inside an SA payload, decoded, and only then mapped;
+	// the decoded transform must be the one that was sent, and the mapping must be the one of the sent transform
+	// (in particular a key-length attribute in TLV form is never AES-CBC, whatever the length of its value)
+	for t := 0; t < c.N(300, 6000); t++ {
+		kind := []string{"encr", "encrk"}[t%2]
+		tr := &message.Transform{TransformType: 1, TransformID: uint16(rng.Pick([]int{12, 12, 12, 13, 3})), AttributePresent: true}
+		if rng.Chance(2, 3) {
+			tr.AttributeFormat = 0
+			tr.AttributeType = uint16(rng.Pick([]int{14, 14, 14, 15, 142}))
+			tr.VariableLengthAttributeValue = rng.Bytes(rng.Pick([]int{1, 2, 16, 24, 32, 64, 127, 128, 129, 192, 256, 257, rng.Range(1, 300)}))
+		} else {
+			tr.AttributeFormat = 1
+			tr.AttributeType = uint16(rng.Pick([]int{14, 14, 15, 142}))
+			tr.AttributeValue = uint16(rng.Pick([]int{0, 16, 24, 32, 128, 192, 256, 129, 65535}))
+		}
+		prop := &message.Proposal{ProposalNumber: 1, ProtocolID: 1, EncryptionAlgorithm: message.TransformContainer{tr},
+			PseudorandomFunction: message.TransformContainer{{TransformType: 2, TransformID: 2}}}
+		sa := &message.SecurityAssociation{Proposals: message.ProposalContainer{prop}}
+		cs := fmt.Sprintf("(tr_decode %s %s)", kind, sxTransform(tr))
+		sent := sxTransform(tr).String()
+		var got *message.Transform
+		wireOut := run(func() string {
+			b, err := sa.Marshal()
+			if err != nil {
+				return "marshal-err"
+			}
+			sa2 := new(message.SecurityAssociation)
+			if err := sa2.Unmarshal(b); err != nil || len(sa2.Proposals) != 1 || len(sa2.Proposals[0].EncryptionAlgorithm) != 1 {
+				return "unmarshal-err"
+			}
+			got = sa2.Proposals[0].EncryptionAlgorithm[0]
+			return sxTransform(got).String()
+		})
+		r.ImplRuns++
+		r.Count(cs, true, fmt.Sprintf("wire-attr:%s:format=%d", kind, tr.AttributeFormat))
+		if wireOut != sent {
+			fail("a transform of the encodable domain does not survive the wire unchanged", cs, sent, wireOut)
+			continue
+		}
+		mo, err := c.M.Ask(cs)
+		if err != nil {
+			return err
+		}
+		if impl := implTrDecode(kind, got); impl != mo {
+			fail("a transform received over the wire is mapped differently from the transform that was sent", cs, mo, impl)
+		}
+	}
 	// unsupported / malformed proposals make NewIKESAKey fail
 	for t := 0; t < c.N(200, 5000); t++ {
 		prop := &message.Proposal{ProtocolID: 1}
